@@ -629,7 +629,7 @@ MUTANTS = [
     _m("perm02-stores-kyz", "        perm[0, 2, ::] = kxz\n", "        perm[0, 2, ::] = kyz\n", "R1"),
     _m("perm12-negated", "        perm[1, 2, ::] = kyz\n", "        perm[1, 2, ::] = -kyz\n", "R1"),
     _m("mu-basis-asymmetric", "                [2, 0, 0, 0, 0, 0, 0, 0, 0],\n                [0, 1, 0, 1, 0, 0, 0, 0, 0],\n",
-       "                [2, 0, 0, 0, 0, 0, 0, 0, 0],\n                [0, 1, 0, 0, 0, 0, 0, 0, 0],\n", "R2", control=True),
+       "                [2, 0, 0, 0, 0, 0, 0, 0, 0],\n                [0, 1, 0, 0, 0, 0, 0, 0, 0],\n", "R2"),
     _m("lmbda-basis-asymmetric", "        lmbda_mat = np.array(\n            [\n                [1, 0, 0, 0, 1, 0, 0, 0, 1],\n",
        "        lmbda_mat = np.array(\n            [\n                [1, 0, 0, 0, 1, 0, 0, 0, 0],\n", "R2"),
     _m("mu-basis-minor-symmetry-broken",
@@ -647,7 +647,7 @@ MUTANTS = [
     _m("copy2-drops-kyz", "kxy=kxy, kxz=kxz, kyy=kyy, kyz=kyz, kzz=kzz)", "kxy=kxy, kxz=kxz, kyy=kyy, kzz=kzz)", "R3"),
     _m("copy2-kxy-kxz-crossed", "kxy=kxy, kxz=kxz, kyy=kyy, kyz=kyz, kzz=kzz)", "kxy=kxz, kxz=kxy, kyy=kyy, kyz=kyz, kzz=kzz)", "R3"),
     _m("init4-writes-basis-in-place", "            c += mat[:, :, np.newaxis] * field\n", "            mat *= 1.0\n            c += mat[:, :, np.newaxis] * field\n", "R3"),
-    _m("restrict-on-self", "        tmp_tensor = self.copy()\n", "        tmp_tensor = self\n", "R4", control=True),
+    _m("restrict-on-self", "        tmp_tensor = self.copy()\n", "        tmp_tensor = self\n", "R4"),
     _m("restrict-values-wrong-axis", "        tmp_tensor.values = tmp_tensor.values[::, ::, cells]\n", "        tmp_tensor.values = tmp_tensor.values[::, cells]\n", "R4"),
     _m("restrict-skips-first-parameter", "        for field in tmp_tensor.constitutive_parameters:\n", "        for field in tmp_tensor.constitutive_parameters[1:]:\n", "R4"),
     _m("restrict-values-dropped", "        tmp_tensor.values = tmp_tensor.values[::, ::, cells]\n", "", "R4"),
